@@ -14,6 +14,7 @@ var table = map[string]func(tier string) int{
 	"C03": checks.C03,
 	"C04": checks.C04,
 	"C06": checks.C06,
+	"C05": checks.C05,
 	"C07": checks.C07,
 	"C08": checks.C08,
 	"C09": checks.C09,
